@@ -51,7 +51,8 @@ Params(c) == LET p == c.proj
                  lon0 == Param(IF CenterStyle(c) THEN "longitude_of_center" ELSE "central_meridian", "LON0")
                  fe == Param("false_easting", "X0U")                                               \* WKT: false origin in the declared linear unit
                  fn == Param("false_northing", "Y0U")
-             IN CASE p = "merc" -> <<lon0, Param("scale_factor", "K0"), fe, fn>>
+             IN CASE p = "merc" -> (IF c.style = "ogc" THEN <<Param("latitude_of_origin", "ZERO")>> ELSE <<>>)      \* GDAL / EPSG spell Mercator_1SP with a (zero) latitude of origin
+                                   \o <<lon0, Param("scale_factor", "K0"), fe, fn>>
                   [] p \in {"lcc", "aea", "eqdc"} -> <<Param("standard_parallel_1", "LAT1"), Param("standard_parallel_2", "LAT2"), lat0, lon0, fe, fn>>
                   [] p = "tmerc" -> <<lat0, lon0, Param("scale_factor", "K0"), fe, fn>>
 Reorder(s, ord) == CASE ord = 1 -> s
